@@ -388,6 +388,10 @@ func TestVerifC16(t *testing.T) {
 		case 8:
 			c.Bubble("", func() { runC16Case(c) })
 		case 6:
+			if c.Index%100 == 56 {
+				c.Bubble("", func() { runC16Big(c) })
+				return
+			}
 			c.Bubble("", func() { runC16Edge(c) })
 		default:
 			c.Bubble("", func() { runC16(c) })
@@ -719,6 +723,46 @@ func runC16Cache(c *vh.Case) {
 		c16RegisterB(server, &seen, &mu)
 		c16RegisterA(server, &seen, &mu)
 	}
+	// one Go type behind two tools: one with the inferred schema, one with a stricter explicit schema given as a
+	// map or as raw JSON; and one tool whose input and output are both map[string]any with different schemas
+	var limSeen []string
+	limStrict := `{"type":"object","properties":{"path":{"type":"string","minLength":3},"limit":{"type":"integer","minimum":1,"maximum":100}},"required":["path","limit"],"additionalProperties":false}`
+	var limSchema any = json.RawMessage(limStrict)
+	if r.Bool() {
+		var m map[string]any
+		json.Unmarshal([]byte(limStrict), &m)
+		limSchema = m
+	}
+	regInferred := func() {
+		mcp.AddTool(server, &mcp.Tool{Name: "lim-inferred"}, func(ctx context.Context, req *mcp.CallToolRequest, a c16Limit) (*mcp.CallToolResult, any, error) {
+			mu.Lock()
+			limSeen = append(limSeen, fmt.Sprintf("inferred:%s:%d", a.Path, a.Limit))
+			mu.Unlock()
+			return nil, nil, nil
+		})
+	}
+	regExplicit := func() {
+		mcp.AddTool(server, &mcp.Tool{Name: "lim-explicit", InputSchema: limSchema}, func(ctx context.Context, req *mcp.CallToolRequest, a c16Limit) (*mcp.CallToolResult, any, error) {
+			mu.Lock()
+			limSeen = append(limSeen, fmt.Sprintf("explicit:%s:%d", a.Path, a.Limit))
+			mu.Unlock()
+			return nil, nil, nil
+		})
+	}
+	if r.Bool() {
+		regInferred()
+		regExplicit()
+	} else {
+		regExplicit()
+		regInferred()
+	}
+	mapOut := map[string]any{}
+	mcp.AddTool(server, &mcp.Tool{Name: "maps",
+		InputSchema:  map[string]any{"type": "object", "properties": map[string]any{"q": map[string]any{"type": "string"}}, "required": []any{"q"}},
+		OutputSchema: map[string]any{"type": "object", "properties": map[string]any{"ok": map[string]any{"type": "boolean"}}, "required": []any{"ok"}, "additionalProperties": false}},
+		func(ctx context.Context, req *mcp.CallToolRequest, in map[string]any) (*mcp.CallToolResult, map[string]any, error) {
+			return nil, mapOut, nil
+		})
 	client := mcp.NewClient(&mcp.Implementation{Name: "c", Version: "1"}, nil)
 	pair, err := vhm.Connect(ctx, vhm.PairOpts{Kind: "mem", Server: server, Client: client, ClientVersion: "2025-06-18"})
 	if err != nil {
@@ -726,6 +770,53 @@ func runC16Cache(c *vh.Case) {
 		return
 	}
 	defer func() { pair.CS.Close(); pair.SS.Wait(); time.Sleep(11 * time.Second) }()
+	for _, k := range []struct {
+		tool  string
+		args  map[string]any
+		valid bool
+		want  string
+	}{
+		{"lim-explicit", map[string]any{"path": "ab"}, false, ""},
+		{"lim-explicit", map[string]any{"path": "abcd", "limit": 500}, false, ""},
+		{"lim-explicit", map[string]any{"path": "abcd", "limit": 5, "extra": 1}, false, ""},
+		{"lim-explicit", map[string]any{"path": "abcd", "limit": 5}, true, "explicit:abcd:5"},
+		{"lim-inferred", map[string]any{"path": "ab"}, true, "inferred:ab:0"},
+		{"lim-inferred", map[string]any{"path": "abcd", "limit": 500}, true, "inferred:abcd:500"},
+		{"lim-inferred", map[string]any{"limit": 5}, false, ""},
+	} {
+		mu.Lock()
+		limSeen = nil
+		mu.Unlock()
+		res, err := pair.CS.CallTool(ctx, &mcp.CallToolParams{Name: k.tool, Arguments: k.args})
+		mu.Lock()
+		got := append([]string(nil), limSeen...)
+		mu.Unlock()
+		if k.valid {
+			if err != nil || res.IsError || len(got) != 1 || got[0] != k.want {
+				c.Violate("valid-input-rejected", "tool %s (one Go type behind an inferred and an explicit %T schema, shared SchemaCache) with valid arguments %s: handler saw %v, result %s err %v", k.tool, limSchema, vh.JSON(k.args), got, vh.JSON(res), err)
+				return
+			}
+		} else if len(got) != 0 || err != nil || !res.IsError {
+			c.Violate("handler-saw-invalid-input", "tool %s (one Go type behind an inferred and an explicit %T schema, shared SchemaCache) with invalid arguments %s: handler saw %v, result %s err %v", k.tool, limSchema, vh.JSON(k.args), got, vh.JSON(res), err)
+			return
+		}
+	}
+	for _, k := range []struct {
+		out   map[string]any
+		valid bool
+	}{{map[string]any{"ok": true}, true}, {map[string]any{"q": "x"}, false}, {map[string]any{"ok": true, "q": "x"}, false}, {map[string]any{}, false}} {
+		mapOut = k.out
+		res, err := pair.CS.CallTool(ctx, &mcp.CallToolParams{Name: "maps", Arguments: map[string]any{"q": "x"}})
+		failed := err != nil || res.IsError
+		if k.valid && failed {
+			c.Violate("valid-output-rejected", "tool maps (input and output both map[string]any, explicit schemas, shared SchemaCache) returned %s; the call failed: %v %s", vh.JSON(k.out), err, vh.JSON(res))
+			return
+		}
+		if !k.valid && !failed {
+			c.Violate("invalid-output-returned", "tool maps (input and output both map[string]any, explicit schemas, shared SchemaCache) returned %s, which its output schema forbids; the result was delivered: %s", vh.JSON(k.out), vh.JSON(res))
+			return
+		}
+	}
 	type tc struct {
 		tool  string
 		args  map[string]any
